@@ -115,7 +115,7 @@ def _spellings(u, names, g, rng):
 
 def observe(payload):
     """payload: {path, default, exhaustive: bool, subsets: [[names]], conform_names: bool, pairs: 'all'|int|0,
-                 triples: int, seed: int}"""
+                 triples: int, nary: int, seed: int}"""
     rng = random.Random(payload.get("seed", 0))
     try:
         u = _load(payload.get("path"), payload.get("default", False))
@@ -228,6 +228,22 @@ def observe(payload):
         except Exception as e:  # noqa: BLE001
             trows.append([i, j, k, f"raised:{_err_class(e)}"])
     res["triples"] = trows
+    # n-ary union / intersection with 0..4 other operands (the methods as coded take *others), plus the comparisons
+    # of the receiver with the first other operand
+    nrows = []
+    for _ in range(int(payload.get("nary", 0)) if n0 else 0):
+        i = rng.randrange(n0)
+        js = [rng.randrange(n0) for _ in range(rng.choice([0, 1, 2, 2, 3, 3, 4]))]
+        a, others = tbl_groups[i], [tbl_groups[j] for j in js]
+        try:
+            bools = []
+            if others:
+                b = others[0]
+                bools = [bool(a == b), bool(a <= b), bool(a.issubset(b)), bool(a.isdisjoint(b)), hash(a) == hash(b)]
+            nrows.append([i, js, intern(a.union(*others)), intern(a.intersection(*others)), bools])
+        except Exception as e:  # noqa: BLE001
+            nrows.append([i, js, f"raised:{_err_class(e)}"])
+    res["nary"] = nrows
     res["table"] = [list(g.names) for g in tbl_groups]
     res["table_required"] = [list(g.required) for g in tbl_groups]
     res["n_primary"] = n0
